@@ -162,8 +162,10 @@ def check_C11(tier):
                 "Build(bag), i.e. every bag in every arrival order gives the same verdict and slots. E2/E3: bags from the "
                 "abstract model (concretised), seeded events with injected inconsistencies, clashing PWB payload "
                 "identities, and simulated 1-4 track events with noise and their malformed variants (bit flip, duplicated "
-                "bank, dropped bank); for each bag every adjacent transposition, the reversal and 3 (20) random "
-                "permutations are run in-process (identity twice), on 4 concurrent threads and in 1-8 fresh processes "
+                "bank, dropped bank); in half of the bags the reassembly-irrelevant chunk header fields (packet / channel sequence) "
+                "are re-drawn (random, minimum on chunk 0, descending, constant); for each bag every adjacent "
+                "transposition, the reversal, the orders sorted by packet sequence / channel sequence / chunk id "
+                "(ascending and descending) and 3 (20) random permutations are run in-process (identity twice), on 4 concurrent threads and in 1-8 fresh processes "
                 "(fresh HashMap hash seeds). Trace_Det requires one verdict class and one digest (bit patterns of "
                 "timestamp, avalanche list in order, vertex) per bag. distinct_nontrivial = bags with >= 2 banks whose "
                 "runs include >= 3 different places (process, thread, child process)")
